@@ -372,6 +372,9 @@ def build_config(scn, bundle):
     mod.setdefault('sys_analyser', {}).setdefault('enabled', False)
     if cfg['base'].get('frequency') == '1m':
         mod['vmin'] = {'enabled': True, 'lib': 'rqalpha_mod_vmin', 'priority': 50}
+    for k, pr in enumerate(scn.get('probes', [])):
+        mod['vprobe%d' % k] = dict(enabled=True, lib='rqalpha_mod_vprobe', priority=pr['priority'], tag=pr['tag'], teardown_raises=pr.get('teardown_raises', False),
+                                   fault_event=pr.get('fault_event'), fault_day=pr.get('fault_day'))
     return cfg
 
 
@@ -430,6 +433,17 @@ def run_scenario(scn, light=False, extra_init=None, keep_bundle=None, world=None
                 api.update_universe(scn['universe'])
             if extra_init:
                 extra_init(context, env, rec, box)
+            ehf = scn.get('event_handler_fault')
+            if ehf:
+                from rqalpha.core.events import EVENT as _EV
+                cnt = {'n': 0}
+
+                def handler(context, event):
+                    cnt['n'] += 1
+                    rec.mark('user0', ph='event_handler', day=-3, bar=cnt['n'])
+                    if cnt['n'] == ehf[1]:
+                        raise RuntimeError('scripted failure in a subscribed event handler')
+                api.subscribe_event(_EV[ehf[0]], handler)
             for reg in scn.get('sched', []):
                 install_sched(api, reg, rec)
             context._bar_dict = None
@@ -460,6 +474,11 @@ def run_scenario(scn, light=False, extra_init=None, keep_bundle=None, world=None
             funcs['after_trading'] = lambda context: run_phase(context, None, 'after_trading')
         result = None
         exc = None
+        probe_log = None
+        if scn.get('probes'):
+            import rqalpha_mod_vprobe
+            rqalpha_mod_vprobe.LOG[:] = []
+            probe_log = rqalpha_mod_vprobe.LOG
         try:
             result = run_func(config=cfg, **funcs)
         except BaseException as e:      # run_func swallows strategy errors itself; this is a harness / config error
@@ -467,7 +486,8 @@ def run_scenario(scn, light=False, extra_init=None, keep_bundle=None, world=None
         rec = box['rec']
         out = dict(trace=rec.marks if rec else [], errors=rec.errors if rec else [('init', 'recorder not installed', '')],
                    exc=exc, world=w, orders=[order_snap(o) for o in box['orders']], days=days, cfg=cfg,
-                   has_result=result is not None and bool(result))
+                   has_result=result is not None and bool(result), result_is_none=result is None,
+                   has_report=bool(result) and 'sys_analyser' in result, probe_log=list(probe_log) if probe_log is not None else None)
         if want_result:
             out['result'] = result
         return out
